@@ -1012,7 +1012,12 @@ def check_property(ctx, pid):
         else:
             unknown_hits.append(h)
     proof_broken = not proofs["ok"]
-    tie_unavailable = bool(stage.get("unavailable")) or bool(errors)
+    # hidden-state audit (tools/purity.py): state kept between calls in a file this property is anchored in
+    import purity
+    aud_all = purity.audit(ctx.repo)
+    anchored = purity.anchored_files(os.path.join(ctx.verif, "properties.jsonl")).get(pid, set())
+    aud_hits = [h for h in aud_all if h["file"] in anchored]
+    tie_unavailable = bool(stage.get("unavailable")) or bool(errors) or bool(aud_hits)
     tie_broken = bool(tie_breaks)
     rc = 0
     replay_path = None
@@ -1031,7 +1036,9 @@ def check_property(ctx, pid):
         payload = {"property": pid, "kind": "no-failing-input-found",
                    "proof": {"ok": proofs["ok"], "failed_obligations": proofs["failed"], "detail": proofs["detail"][-1200:]},
                    "correspondence": {"broken_on": d["what"] if d else None, "first_disagreement": d,
-                                      "unavailable": stage.get("unavailable"), "errors": [e.get("error") for e in errors][:3],
+                                      "unavailable": stage.get("unavailable") or ("hidden state in a source file this property is anchored in: the model is a pure function of the arguments and the correspondence compares call by call, so a result that may depend on earlier calls is not covered (tools/purity.py)" if aud_hits else None),
+                                      "hidden_state": aud_hits[:6],
+                                      "errors": [e.get("error") for e in errors][:3],
                                       "n_disagreements": len(tie_breaks)},
                    "translator": binfo.get("gen_out", ""),
                    "note": "the monitors of this property found no failing input on the implementation; the property is "
@@ -1092,6 +1099,7 @@ def check_property(ctx, pid):
             "generator_distribution": dist,
             "special": {k: v for k, v in special.items() if k not in ("mismatch_blocks", "samples", "sendsync_err")},
             "stage_key": stage.get("key"),
+            "hidden_state_audit": {"constructs_in_source": len(aud_all), "in_files_this_property_is_anchored_in": aud_hits[:6]},
             "extraction_crosscheck": stage.get("extraction_crosscheck"),
         },
         "assumptions": ASSUMPTIONS.get(pid, []) + ["model tied to /repo by differential correspondence (not proof) over the cases counted above",
